@@ -136,7 +136,7 @@ package ro
 //@   track destination.* hook.* Subscription.* lock.* trylock.* spawn.*
 //@   ensures [cut|C06] s.status != 0
 //@   ensures [winner-tears-down|C03,C14] cas_ok(status) ==> trace(Subscription.Unsubscribe())
-//@   ensures [loser-does-nothing|C03] !cas_ok(status) ==> trace()
+//@   ensures [loser-does-nothing|C03,C06,C01] !cas_ok(status) ==> trace()
 //@   ensures [never-takes-producer-lock|C06] count(lock.mu) == 0 && count(trylock.mu) == 0
 
 //@ func (*subscriberImpl).IsClosed
